@@ -453,7 +453,8 @@ def link_target_obligations(ctx, rep, rule="R06e"):
         from .c05 import rendered_targets
 
         ev_problems, decided = [], 0
-        for host, port in ((None, None), ("gopher.example.org", None), (None, 7070), ("gopher.example.org", 7070)):
+        # (the last one names this server under its own name but another port: another server on the same machine)
+        for host, port in ((None, None), ("gopher.example.org", None), (None, 7070), ("gopher.example.org", 7070), ("this.example", 7070)):
             for et in ("0", "1"):
                 rt = rendered_targets(ctx, P, "/dir/a b", et, host=host, port=port)
                 if rt is None:
@@ -469,7 +470,7 @@ def link_target_obligations(ctx, rep, rule="R06e"):
                         ev_problems.append(f"an entry with {what} is rendered as {t_!r}: the other protocols point the same entry at that host and port")
                 if not rt:
                     ev_problems.append(f"an entry with {what} is rendered without a link")
-        if decided == 8:
+        if decided == 10:
             rep.add(rule, f"{ro.qualname}: relative link exactly for entries without host and port", not ev_problems, ctx.where(ro),
                     "; ".join(sorted(set(ev_problems))[:3]), key=f"{rule}|{ro.qualname}")
             continue
@@ -590,6 +591,18 @@ def equivalent_target_obligations(ctx, rep, rule="R06h"):
                     if not ok:
                         problems.append(f"the type-{et} entry {nme!r} is linked as {t_!r}, which does not percent-decode to its selector "
                                         "(the other protocols' links for the same entry lead to a different object)")
+        # entries that name a URL (selector URL:...): the link is that URL, once the markup's own quoting is undone
+        for url in ("http://ex.example/find?q=a&lt=25&copy=1", "https://ex.example/a'b/<c>"):
+            for et in ("h", "1"):
+                rt = rendered_targets(ctx, P, "URL:" + url, et)
+                if rt is None:
+                    continue
+                n += 1
+                if not rt:
+                    problems.append(f"a link to {url!r} is rendered without a target")
+                for t_ in rt:
+                    if t_ != url:
+                        problems.append(f"the link to {url!r} is rendered so that a reader of the markup follows {t_!r}")
         ro = prog.resolve_method(P, "renderobjinfo")
         if n:
             rep.add(rule, f"{qual.split('.')[-1]}: link targets decode to the entry's selector [{n} entries]", not problems, ctx.where(ro) if ro else "",
